@@ -51,6 +51,19 @@ DispNext == steps < MaxSteps /\
   \/ PeerPubrel(12)
 DispSpec == Init /\ [][DispNext]_vars
 
+(* C02 / C20, client as receiver of QoS 2 messages while the peer also sends acknowledgements that carry the identifier of
+   an open inbound exchange (the two directions number their packets independently, so the client's first request and
+   the peer's first message may both be number 1): all paths over two inbound exchanges released in any order with
+   PUBREC / PUBACK / PUBCOMP for request 1 in between                                                         *)
+InStrayNext == steps < MaxSteps /\
+  \/ (nreq = 0 /\ AppSubscribe(<<AH>>))
+  \/ (nreq = 1 /\ sb # <<>> /\ PeerSuback(1, <<0>>))
+  \/ (nreq = 1 /\ sb = <<>> /\
+        \/ \E pid \in {1, 2} : PeerPublish2(AB, pid, IF pid = 1 THEN "y" ELSE "z", FALSE)
+        \/ \E pid \in {1, 2} : PeerPubrel(pid)
+        \/ (p2in # <<>> /\ (PeerPubrec(1) \/ PeerPuback(1) \/ PeerPubcomp(1))))
+InStraySpec == Init /\ [][InStrayNext]_vars
+
 (* C20, the local subscription tree over EVERY history of subscribe / unsubscribe requests of a given length (requests
    naming filters the tree knows and filters it does not, repeated filters, any order), observed by one probe publish
    at the end: what the tree has become is implementation state that one witness per transition does not pin down   *)
